@@ -342,6 +342,15 @@ func mixCases(prop string) []Case {
 	add([]string{sendAll("USD", "{ max %C from { @a @b } @a }", "{ 1/2 to { max %C to @d remaining kept } 1/2 to { 1/2 to @e 1/2 to @d } }")}, nil)
 	// a second asset next to the first
 	add([]string{sendFixed("USD", "{ @a @b }", "@d"), "send [EUR/2 *] (\n  source = { @a @d }\n  destination = { 1/2 to @b 1/2 kept }\n)", sendAll("USD", "@d", "@a")}, nil)
+	// an account credited in one asset before it is debited in another one
+	add([]string{"send [EUR/2 5] (\n  source = @world\n  destination = @a\n)", sendFixed("USD", "@a", "@d")}, nil)
+	add([]string{"send [EUR/2 *] (\n  source = @b\n  destination = { 1/2 to @a 1/2 to @b }\n)", sendAll("USD", "{ @a allowing overdraft up to %K @b }", "@d"), "send [EUR/2 *] (\n  source = @a\n  destination = @d\n)"}, nil)
+	ex := map[string][2]string{"_store": {"", "exact"}}
+	add([]string{"send [EUR/2 5] (\n  source = @world\n  destination = @a\n)", sendFixed("USD", "@a", "@d")}, ex)
+	add([]string{sendFixed("USD", "@a", "@b"), "send [EUR/2 *] (\n  source = @b\n  destination = { 1/2 to @a 1/2 to @b }\n)", sendAll("USD", "{ @a allowing overdraft up to %K @b }", "@d")}, ex)
+	// an account behind a capped unbounded overdraft and again as a plain source
+	add([]string{sendFixed("USD", "{ max %C from @a allowing unbounded overdraft @a @b }", "@d")}, nil)
+	add([]string{sendAll("USD", "{ max %C from @a allowing unbounded overdraft @a @b }", "{ max %C to @d remaining to @e }")}, nil)
 	// statement kinds following each other
 	add([]string{"set_tx_meta(\"k\", 1)", sendFixed("USD", "@a", "@d"), "set_account_meta(@a, \"k\", @d)", "save [USD *] from @a", sendFixed("USD", "{ @a @world }", "@e")}, nil)
 	return cases
